@@ -34,4 +34,36 @@ def tpAbort (reason pgn : Nat) : List Nat := [255, reason, 0xff, 0xff, 0xff] ++ 
 def tpReassemble (size : Nat) (pkts : List (List Nat)) : List Nat :=
   ((pkts.map (·.drop 1)).flatten).take size
 
+/-! ## reference bookkeeping of a receiver over a whole frame history -/
+
+/-- what a received frame means to the transport protocol -/
+inductive TpEv where
+  | announce (src dst pgn size : Nat)            -- TP.CM RTS or BAM
+  | data (src dst seq : Nat) (bytes : List Nat)  -- TP.DT with its sequence number and payload bytes
+  | other                                        -- anything else
+  deriving Repr
+
+/-- an open transfer of one source/destination pair: PGN and size of its announce, payloads of the packets 1, 2, … so far -/
+structure TpSess where
+  pgn : Nat
+  size : Nat
+  pk : List (List Nat)
+  deriving Repr
+
+/-- one event seen by the bookkeeping of the pair `src → dst`: an announce of the pair (re)starts a transfer; a data packet of
+the pair continues it only with the next sequence number, any other number ends it; everything else is ignored -/
+def tpStep (src dst : Nat) (st : Option TpSess) : TpEv → Option TpSess
+  | .announce s d pgn size => if s = src ∧ d = dst then some ⟨pgn, size, []⟩ else st
+  | .data s d seq bytes =>
+    if s = src ∧ d = dst then
+      match st with
+      | some x => if seq = x.pk.length + 1 then some { x with pk := x.pk ++ [bytes] } else none
+      | none => none
+    else st
+  | .other => st
+
+/-- the transfer of the pair that is open after the history `evs` (the packets since its last announce arrived complete and in
+order, with no other data packet of the pair in between) -/
+def tpTrack (src dst : Nat) (evs : List TpEv) : Option TpSess := evs.foldl (tpStep src dst) none
+
 end N2k.Spec
